@@ -341,6 +341,7 @@ DEFAULT_PROFILE = dict(
     p_ts_bytes_default=0.0,     # K16: emitted as str, refused by the runtime
     p_multi_pos_custom=0.0,     # K8
     p_three_part_field_ref=0.0,  # K22 (swift/objc _docf)
+    p_tag_named_like_member_field=0.0,  # union tag named after a field of its struct member type
     p_prefer_redacted_alias=0.0,  # bias user-type positions towards aliases carrying a redactor
     p_alias_field_ref=0.0,       # :field:`Alias.f` (whitelist doc-ref parser)
     p_prefix_pattern_literal=0.0,  # K16
@@ -916,6 +917,18 @@ class Gen:
                 t = None
             else:
                 t = self.type_expr(ns)
+            if t is not None and self.p['p_tag_named_like_member_field'] and \
+                    r.random() < self.p['p_tag_named_like_member_field']:
+                # a struct member's fields are flattened next to ".tag": name the tag
+                # after one of them
+                tgt = self.m.target(t)
+                if tgt is not None and tgt.kind == 'struct':
+                    used = self.names_in_tree(key)
+                    cands = [x.name for x in self.m.struct_all_fields(tgt) if x.name not in used]
+                    if cands:
+                        tname = r.choice(cands)
+                        used.add(tname)
+                        self.m.feature('tag_named_like_member_field')
             f = FieldDef(name=tname, type=t, default=None, doc=None,
                          anns=self.field_anns(ns, t, is_void=(t is None)))
             f.doc = self.doc(self.doc_refs_for(ns, d))
